@@ -91,16 +91,16 @@ Theorem C07_late_lock_refuted : exists w slate ttl tip,
 Proof. exact late_lock_reserves_before_verifying. Qed.
 Print Assumptions C07_late_lock_refuted.
 
-(** Open finding C07-refused-receive-leaves-record, mirrored: a receive refused for its signature
-    data has already written the recipient's output and log entry, and the genuine slate with
-    that id is then refused as already received. *)
-Theorem C07_refused_receive_leaves_record_refuted :
-  let w' := fst (receive empty_wallet 7 100 0 None false) in
-  snd (receive empty_wallet 7 100 0 None false) = Err ECrypto
-  /\ length (w_outs w') = 1%nat /\ length (w_log w') = 1%nat
-  /\ receive w' 7 100 0 None true = (w', Err EAlreadyReceived).
-Proof. vm_compute. repeat split; reflexivity. Qed.
-Print Assumptions C07_refused_receive_leaves_record_refuted.
+(** A receive that is refused — expired, a second delivery, or for its signature data — writes no
+    output, no log entry and no context (since the [fix:] that moved the signature steps before
+    the write; before it a slate refused for a bad partial signature left an Unconfirmed output
+    and a received entry behind, and the genuine slate with that id was then refused). *)
+Theorem C07_refused_receive_writes_nothing : forall w s a t d c,
+  is_ok (snd (receive w s a t d c)) = false ->
+  let w' := fst (receive w s a t d c) in
+  w_outs w' = w_outs w /\ w_log w' = w_log w /\ w_ctxs w' = w_ctxs w.
+Proof. exact refused_receive_writes_nothing. Qed.
+Print Assumptions C07_refused_receive_writes_nothing.
 
 (** non-vacuity: a wallet with one spendable coinbase and one pending send; the foreign
     sequence (a receive, a coinbase naming an existing non-candidate key, a forged reply for the
